@@ -23,6 +23,9 @@ def harnesses(tier):
             scenario_harness("nested-own-clock", Profile(
                 templates=("N12",), timeout="free", never="free", perm="id", crit_sched="free", crit_job=False),
                 o, required_notes=req),
+            scenario_harness("nested-propagation", Profile(
+                templates=("N12",), timeout="always", timeout_scope="top", sd="free", lat="free", perm="id",
+                crit_job=False, edges="none"), o, required_notes=req + ("propagated_cancellations",)),
         ]
     return [
         scenario_harness("flat4-never-window", Profile(
